@@ -6,7 +6,12 @@ package main
 // "holds on every path to X" facts. Pure propositional bookkeeping — no solver.
 
 import (
+	"go/constant"
+	"go/token"
+	"go/types"
+	"regexp"
 	"sort"
+	"strconv"
 	"strings"
 
 	"golang.org/x/tools/go/ssa"
@@ -168,15 +173,15 @@ func NewPathConds(t *Terms) *PathConds {
 				unknown = true
 				break
 			}
-			lit := p.edgeLit(pr, b)
+			eds := p.edgeDNF(pr, b)
 			if isLoopHeader(pr) && !loopBody(pr)[b] {
-				lit = "" // leaving a loop: its exit test is about loop-variant values
+				eds = []conj{{}} // leaving a loop: its exit test is about loop-variant values
 			}
 			for _, c := range pc.cs {
-				if lit == "" {
-					acc = append(acc, c)
-				} else if n, ok := conjAdd(c, lit); ok {
-					acc = append(acc, n)
+				for _, e := range eds {
+					if n, ok := conjMerge(c, e); ok {
+						acc = append(acc, n)
+					}
 				}
 			}
 		}
@@ -285,9 +290,13 @@ func (p *PathConds) domMust(b *ssa.BasicBlock) []string {
 				if isLoopHeader(d) && !loopBody(d)[s] {
 					continue
 				}
-				if lit := p.edgeLit(d, s); lit != "" && !seen[lit] {
-					seen[lit] = true
-					out = append(out, lit)
+				if eds := p.edgeDNF(d, s); len(eds) == 1 {
+					for _, lit := range eds[0] {
+						if !seen[lit] {
+							seen[lit] = true
+							out = append(out, lit)
+						}
+					}
 				}
 			}
 		}
@@ -487,4 +496,294 @@ func dnfEquivDomain(a, b dnf, domains map[string][]string) bool {
 		return true
 	}
 	return rec(0, map[string]string{})
+}
+
+// ---------------------------------------------------------------------------------------
+// Predicate helpers. A branch on `g(args)` where g is a small, loop-free, side-effect-free
+// repo function returning one bool is expanded into g's own return condition, rewritten
+// into the caller's terms ($k.f.. is read in the caller's memory at the call). A condition
+// written inline and the same condition moved into a named helper thus give the same
+// reaching conditions. Predicates that rules refer to by name stay opaque (opaquePreds).
+
+// Character classes of the lexer and word classes of the text formatter are vocabulary of
+// the rules themselves (C07, C18.g compare guards by predicate name); they stay opaque.
+func isOpaquePred(g *ssa.Function) bool {
+	if g.Pkg != nil && strings.HasSuffix(g.Pkg.Pkg.Path(), "/lexer") {
+		return true
+	}
+	if recv := g.Signature.Recv(); recv != nil && strings.HasSuffix(recv.Type().String(), "parser.FontConfig") {
+		return true
+	}
+	return false
+}
+
+type boolSummary struct {
+	pos, neg []conj // result is true / false; atoms over $k of the helper
+}
+
+var boolSumCache = map[*ssa.Function]*boolSummary{}
+
+var quotedRe = regexp.MustCompile(`"(?:[^"\\]|\\.)*"`)
+
+var paramPathRe = regexp.MustCompile(`\$(\d+)((?:\.[A-Za-z_][A-Za-z_0-9]*)*)`)
+
+func (p *PathConds) boolSummaryOf(g *ssa.Function) *boolSummary {
+	if s, ok := boolSumCache[g]; ok {
+		return s
+	}
+	boolSumCache[g] = nil
+	t := p.t
+	if !t.w.InRepo(g) || len(g.Blocks) == 0 || len(g.Blocks) > 16 || isOpaquePred(g) {
+		return nil
+	}
+	res := g.Signature.Results()
+	if res.Len() != 1 || !types.Identical(res.At(0).Type().Underlying(), types.Typ[types.Bool]) {
+		return nil
+	}
+	if t.purity(g) < purReadOnly {
+		return nil
+	}
+	for _, b := range g.Blocks {
+		if isLoopHeader(b) {
+			return nil
+		}
+		for _, in := range b.Instrs {
+			switch in.(type) {
+			case *ssa.Defer, *ssa.Go, *ssa.Panic, *ssa.MakeClosure:
+				return nil
+			}
+		}
+	}
+	tg := t.w.TermsOf(g, t.eff)
+	pg := NewPathConds(tg)
+	sum := &boolSummary{}
+	okAll := true
+	condOf := func(b *ssa.BasicBlock) []conj {
+		d := pg.At(b)
+		if d.unknown {
+			okAll = false
+			return nil
+		}
+		return d.cs
+	}
+	var valDNF func(v ssa.Value, at *ssa.BasicBlock, base []conj, want bool, depth int) []conj
+	valDNF = func(v ssa.Value, at *ssa.BasicBlock, base []conj, want bool, depth int) []conj {
+		switch x := v.(type) {
+		case *ssa.Const:
+			if x.Value != nil && x.Value.Kind() == constant.Bool && constant.BoolVal(x.Value) == want {
+				return base
+			}
+			return nil
+		case *ssa.UnOp:
+			if x.Op == token.NOT {
+				return valDNF(x.X, at, base, !want, depth)
+			}
+		case *ssa.Phi:
+			if x.Block() == at && depth < 4 && !isLoopHeader(at) {
+				var out []conj
+				for i, e := range x.Edges {
+					pr := at.Preds[i]
+					var eb []conj
+					for _, ec := range pg.edgeDNF(pr, at) {
+						for _, c := range condOf(pr) {
+							m, ok := conjMerge(c, ec)
+							if !ok {
+								continue
+							}
+							for _, bc := range base {
+								if m2, ok := conjMerge(m, bc); ok {
+									eb = append(eb, m2)
+								}
+							}
+						}
+					}
+					eb = simplify(eb)
+					out = append(out, valDNF(e, pr, eb, want, depth+1)...)
+				}
+				return out
+			}
+		}
+		term := tg.Term(v)
+		lit := "+" + term
+		if !want {
+			lit = "-" + term
+		}
+		var out []conj
+		for _, c := range base {
+			if n, ok := conjAdd(c, lit); ok {
+				out = append(out, n)
+			}
+		}
+		return out
+	}
+	nRet := 0
+	for _, b := range g.Blocks {
+		if len(b.Instrs) == 0 {
+			continue
+		}
+		r, ok := b.Instrs[len(b.Instrs)-1].(*ssa.Return)
+		if !ok || len(r.Results) != 1 {
+			continue
+		}
+		nRet++
+		sum.pos = append(sum.pos, valDNF(r.Results[0], b, condOf(b), true, 0)...)
+		sum.neg = append(sum.neg, valDNF(r.Results[0], b, condOf(b), false, 0)...)
+	}
+	if !okAll || nRet == 0 {
+		return nil
+	}
+	sum.pos, sum.neg = simplify(sum.pos), simplify(sum.neg)
+	if len(sum.pos)+len(sum.neg) > 24 {
+		return nil
+	}
+	// atoms must be expressible in the caller: parameters, field paths, constants, operators
+	for _, cs := range [][]conj{sum.pos, sum.neg} {
+		for _, c := range cs {
+			for _, l := range c {
+				bare := quotedRe.ReplaceAllString(l[1:], `""`)
+				if strings.ContainsAny(bare, "@!#") || strings.Contains(bare, "phi(") || strings.Contains(bare, "mu(") {
+					return nil
+				}
+			}
+		}
+	}
+	boolSumCache[g] = sum
+	return sum
+}
+
+func conjMerge(a, b conj) (conj, bool) {
+	out := a
+	for _, l := range b {
+		var ok bool
+		out, ok = conjAdd(out, l)
+		if !ok {
+			return nil, false
+		}
+	}
+	return out, true
+}
+
+// expandCall: the conditions under which call returns true / false, in the caller's terms.
+func (p *PathConds) expandCall(call *ssa.Call) (pos, neg []conj, ok bool) {
+	g := call.Call.StaticCallee()
+	if g == nil || call.Call.IsInvoke() {
+		return nil, nil, false
+	}
+	sum := p.boolSummaryOf(g)
+	if sum == nil {
+		return nil, nil, false
+	}
+	args := call.Call.Args
+	subst := func(l string) string {
+		return l[:1] + paramPathRe.ReplaceAllStringFunc(l[1:], func(m string) string {
+			sm := paramPathRe.FindStringSubmatch(m)
+			k, _ := strconv.Atoi(sm[1])
+			if k >= len(args) {
+				ok = false
+				return m
+			}
+			term := p.t.Term(args[k])
+			if sm[2] != "" {
+				for _, f := range strings.Split(sm[2][1:], ".") {
+					term = p.t.FieldAt(call, term, f)
+				}
+			}
+			return term
+		})
+	}
+	ok = true
+	conv := func(cs []conj) []conj {
+		var out []conj
+		for _, c := range cs {
+			var n conj
+			good := true
+			for _, l := range c {
+				var g2 bool
+				n, g2 = conjAdd(n, normLit(subst(l)))
+				if !g2 {
+					good = false
+					break
+				}
+			}
+			if good {
+				out = append(out, n)
+			}
+		}
+		return out
+	}
+	pos, neg = conv(sum.pos), conv(sum.neg)
+	return pos, neg, ok
+}
+
+// normLit re-normalises a literal after substitution ("!x", "a != b", "a <= b").
+func normLit(l string) string {
+	pos := l[0] == '+'
+	term, flip := normCondTerm(l[1:])
+	if flip {
+		pos = !pos
+	}
+	if pos {
+		return "+" + term
+	}
+	return "-" + term
+}
+
+func normCondTerm(term string) (string, bool) {
+	neg := false
+	for strings.HasPrefix(term, "!") {
+		term = term[1:]
+		neg = !neg
+	}
+	if strings.HasPrefix(term, "(") && strings.HasSuffix(term, ")") {
+		if i := topLevelOp(term, " != "); i > 0 {
+			term = term[:i] + " == " + term[i+4:]
+			neg = !neg
+		}
+	}
+	if strings.HasPrefix(term, "(") && strings.HasSuffix(term, ")") {
+		if i := topLevelOp(term, " <= "); i > 0 {
+			term = "(" + term[i+4:len(term)-1] + " < " + term[1:i] + ")"
+			neg = !neg
+		}
+	}
+	return term, neg
+}
+
+// edgeDNF: the condition of the edge from -> to as a disjunction of conjunctions
+// ({{}} when unconditional).
+func (p *PathConds) edgeDNF(from, to *ssa.BasicBlock) []conj {
+	if len(from.Instrs) > 0 && from.Succs != nil && len(from.Succs) == 2 && from.Succs[0] != from.Succs[1] {
+		if ifi, ok := from.Instrs[len(from.Instrs)-1].(*ssa.If); ok {
+			v := ifi.Cond
+			want := from.Succs[0] == to
+			for {
+				u, ok := v.(*ssa.UnOp)
+				if !ok || u.Op != token.NOT {
+					break
+				}
+				v = u.X
+				want = !want
+			}
+			if call, ok := v.(*ssa.Call); ok && p.t.testShapeOf(calleeOrNil(call)) == nil {
+				if pos, neg, ok := p.expandCall(call); ok {
+					if want {
+						return pos
+					}
+					return neg
+				}
+			}
+		}
+	}
+	lit := p.edgeLit(from, to)
+	if lit == "" {
+		return []conj{{}}
+	}
+	return []conj{{lit}}
+}
+
+func calleeOrNil(call *ssa.Call) *ssa.Function {
+	if call.Call.IsInvoke() {
+		return nil
+	}
+	return call.Call.StaticCallee()
 }
